@@ -8,6 +8,7 @@ references" (Hts.Lemmas.BamWF).
 import Hts.Lemmas.BamStream
 import Hts.Lemmas.BamSpec
 import Hts.Lemmas.BamReadSpec
+import Hts.Lemmas.BamTotal
 namespace Hts.Props.C05
 open Hts.Model.Bam
 
@@ -157,6 +158,14 @@ theorem write_rejects_name (r : Record) (h : r.name.length = 0 ∨ 254 < r.name.
 theorem fuel_unreachable (om : Omit) (n : Nat) (s : List Byte) :
     (readAll om n s).2 ≠ some .fuel ∧ readRecord om n s ≠ .fault .fuel ∧ parseAux s ≠ .error .fuel :=
   ⟨readAll_ne_fuel om n s, readRecord_ne_fuel om n s, parseAux_ne_fuel s⟩
+
+/-- the reader is total on ARBITRARY bytes: whatever the stream, every `Read` ends in a record, `io.EOF` or a Go
+`error` — never in a panic (the model's only panic outcome is the writer's) and never by exhausting the model's fuel;
+`readAll` stops after finitely many records. -/
+theorem read_never_panics (om : Omit) (n : Nat) (s : List Byte) :
+    (readAll om n s).2 ≠ some .panicAuxType ∧ readRecord om n s ≠ .fault .panicAuxType ∧
+      parseAux s ≠ .error .panicAuxType :=
+  ⟨readAll_ne_panic om n s, readRecord_ne_panic om n s, parseAux_ne_panic s⟩
 
 /-! ### non-vacuity: a concrete non-trivial record is well-formed, and what the theorems say about it -/
 
